@@ -49,11 +49,13 @@ struct Spec {
     kinds_present: [bool; 3],
     version: (u16, u8, u8),
     second_extra: bool,
+    same_names: bool,
+    obsolete_keeps_link: bool,
 }
 
 impl Spec {
     fn base() -> Spec {
-        Spec { term_name: 0, gene_name: 0, omim_name: 0, orpha_name: 0, obsolete: false, replacement: 0, extra_id: 119, rec_id: 7, rec_terms: 1, kinds_present: [true; 3], version: (2024, 2, 29), second_extra: false }
+        Spec { term_name: 0, gene_name: 0, omim_name: 0, orpha_name: 0, obsolete: false, replacement: 0, extra_id: 119, rec_id: 7, rec_terms: 1, kinds_present: [true; 3], version: (2024, 2, 29), second_extra: false, same_names: false, obsolete_keeps_link: false }
     }
     fn facts(&self) -> Facts {
         let nm = names();
@@ -64,7 +66,7 @@ impl Spec {
         f.terms.push(Facts::term(118, "Phenotypic abnormality"));
         f.edges.push((118, 1));
         f.terms.push(crate::model::TermFact { id: self.extra_id, name: name_of(self.term_name), obsolete: self.obsolete, replacement: match self.replacement { 0 => None, 1 => Some(118), _ => Some(1) } });
-        if !self.obsolete {
+        if !self.obsolete || self.obsolete_keeps_link {
             f.edges.push((self.extra_id, 118));
         }
         if self.second_extra {
@@ -94,7 +96,7 @@ impl Spec {
                 f.anns.push(Facts::ann(kind, self.rec_id, &name, Some(*t)));
             }
             // a second record of the kind so that sections hold several records
-            f.anns.push(Facts::ann(kind, 1000 + k as u32, "Second record", Some(118)));
+            f.anns.push(Facts::ann(kind, 1000 + k as u32, if self.same_names { &name } else { "Second record" }, Some(118)));
         }
         f.edges.dedup();
         f
@@ -140,6 +142,11 @@ fn deviations() -> Vec<(String, Box<dyn Fn(&mut Spec)>)> {
     v.push(("version 0000-00-00".into(), Box::new(|s: &mut Spec| s.version = (0, 0, 0))));
     v.push(("version 65535-255-255".into(), Box::new(|s: &mut Spec| s.version = (65535, 255, 255))));
     v.push(("modifier branch".into(), Box::new(|s: &mut Spec| s.second_extra = true)));
+    v.push(("both records of each kind have the same name".into(), Box::new(|s: &mut Spec| s.same_names = true)));
+    v.push(("obsolete term keeps its is_a link".into(), Box::new(|s: &mut Spec| {
+        s.obsolete = true;
+        s.obsolete_keeps_link = true;
+    })));
     v
 }
 
@@ -300,7 +307,7 @@ fn run_spec(ctx: &mut Ctx, spec: &Spec, label: &str) {
 
 pub fn run(ctx: &mut Ctx) {
     let thorough = ctx.tier.thorough();
-    ctx.rule = "deviation-bounded: case = base ontology (HP:1, HP:118, one further term, two records per kind) with 0, 1 or 2 deviations from the listed dimensions (names incl. 255/256-byte and limit-inside-a-character, flags, ids, record shapes, versions), built through every public constructor able to express it (Builder, from_bytes of the independent encoder, from_standard) and round-tripped twice; plus the small-ontology family of C08 (all DAG shapes <= 4 terms with flags and records); distinct by construction; non-trivial = at least one deviation".into();
+    ctx.rule = "deviation-bounded: case = base ontology (HP:1, HP:118, one further term, two records per kind) with 0, 1, 2 or 3 (thorough: 4) deviations from the listed dimensions (names incl. 255/256-byte and limit-inside-a-character, flags, ids, record shapes, versions), built through every public constructor able to express it (Builder, from_bytes of the independent encoder, from_standard) and round-tripped twice; plus the small-ontology family of C08 (all DAG shapes <= 4 terms with flags and records); distinct by construction; non-trivial = at least one deviation".into();
     ctx.assumptions = vec![
         "term and gene names are limited to 255 bytes by the format: the expected reloaded name is the longest prefix ending on a character boundary within 255 bytes; disease names are unlimited".into(),
         "the ontology contains HP:0000001 and HP:0000118".into(),
@@ -340,8 +347,8 @@ pub fn run(ctx: &mut Ctx) {
             ctx.sample(|| json!({"deviations": label}));
         }
     }
-    if thorough {
-        ctx.space("deviations/3", "all unordered triples of deviations (thorough)");
+    {
+        ctx.space("deviations/3", "all unordered triples of deviations");
         for i in 0..devs.len() {
             for j in i + 1..devs.len() {
                 for k in j + 1..devs.len() {
@@ -358,6 +365,33 @@ pub fn run(ctx: &mut Ctx) {
                     run_spec(ctx, &s, &label);
                     ctx.sample(|| json!({"deviations": label}));
                 }
+            }
+        }
+    }
+    if thorough {
+        ctx.space("deviations/4", "all unordered quadruples of deviations (thorough)");
+        for i in 0..devs.len() {
+            for j in i + 1..devs.len() {
+                for k in j + 1..devs.len() {
+                    for l in k + 1..devs.len() {
+                        if !ctx.take() {
+                            continue;
+                        }
+                        ctx.state();
+                        ctx.nontrivial();
+                        let mut s = Spec::base();
+                        (devs[i].1)(&mut s);
+                        (devs[j].1)(&mut s);
+                        (devs[k].1)(&mut s);
+                        (devs[l].1)(&mut s);
+                        let label = format!("{} + {} + {} + {}", devs[i].0, devs[j].0, devs[k].0, devs[l].0);
+                        run_spec(ctx, &s, &label);
+                        ctx.sample(|| json!({"deviations": label}));
+                    }
+                }
+            }
+            if ctx.out_of_time() {
+                break;
             }
         }
     }
